@@ -2,8 +2,9 @@
 """Round 8+ prompt for an independent seeding agent: property text only, three changes,
 one per manifestation kind. usage: seed_prompt8.py <PID> <worktree> <outdir>"""
 import json, sys
-pid = sys.argv[1]; wt = sys.argv[2]; out = sys.argv[3]
+pid = sys.argv[1]; wt = sys.argv[2]; out = sys.argv[3]; variant = sys.argv[4] if len(sys.argv) > 4 else ""
 p = next(json.loads(l) for l in open('/verif/properties.jsonl') if json.loads(l)['id'] == pid)
+EXTRA = ("At least TWO of the three changes must be made in source files OTHER than the RELEVANT FILES listed above -- helper modules that those files call into (encoding/decoding helpers, utility modules, crypto wrappers, shared traits, other protocol layers) -- or in functions of the listed files that none of the obvious entry points reach directly, while the observable violation is still a violation of THIS property through its public API. " if variant == "offpath" else "")
 print(f"""You are helping to test a verification effort by writing realistic BUGS. You work ONLY inside the git worktree {wt} (a checkout of the Rust library NLnetLabs/rpki-rs: parsing, validating and creating RPKI objects, plus RTR, RRDP and CA protocols). Do not read or write anything under /verif or /repo, and do not look at other /tmp/seed* directories. Use `CARGO_TARGET_DIR={wt}/target` and `--offline` for every cargo command (no network exists). Other builds run on this machine at the same time, so builds may be slow; be patient and do not use more than `-j 4`.
 
 Here is a semantic property the library is supposed to satisfy:
@@ -22,7 +23,7 @@ The three changes must use three different manifestation kinds, in different fun
   1. one that needs a particular MULTI-STEP SEQUENCE of operations, or state left behind by an earlier call / earlier object / earlier connection (caches, reused buffers, cursors, lazily built tables, an object used twice, a mutator followed by a query), or — for asynchronous code — a particular interleaving, fragmentation, cancellation or fault (short read/write, error, close) at a particular point;
   2. one that needs an UNUSUAL INPUT: a rare but legal encoding or spelling, a value at a representation boundary (length, count or magnitude where the code switches path, width or algorithm), a rare combination of optional parts;
   3. one made of TWO COOPERATING SITES that each look fine alone (e.g. a check moved from one function to another that not every route passes through; a normalisation in a constructor that a comparison elsewhere silently relied on; an invariant established in one place and relaxed in another), or an interaction of two features each of which works alone.
-Prefer code paths that are less obviously central (sibling entry points, by-value/by-reference variants, iterators, Display/FromStr/serde forms, mutators, convenience wrappers, error paths), as long as the violation is of THIS property.
+{EXTRA}Prefer code paths that are less obviously central (sibling entry points, by-value/by-reference variants, iterators, Display/FromStr/serde forms, mutators, convenience wrappers, error paths), as long as the violation is of THIS property.
 
 For each change also write a DEMONSTRATION: a small Rust test file (to be placed under {wt}/tests/, using only the public API) that FAILS with the change applied and PASSES on the unchanged HEAD when run with `cargo test --offline --all-features --test <name>`. Verify both directions yourself.
 
